@@ -533,7 +533,7 @@ fn rim_state<K: Kit>(b: &Base) -> crate::kit::V {
 }
 
 /// Another representation of the same configuration (None for R^n, where there is none).
-fn noncanonical(v: &crate::kit::V) -> Option<crate::kit::V> {
+pub(crate) fn noncanonical(v: &crate::kit::V) -> Option<crate::kit::V> {
     use crate::kit::V;
     match v {
         V::Rv(_) => None,
